@@ -75,6 +75,15 @@ CHECKS = {
    technique="exhaustive mutation families (every truncation, every single-byte replacement from an 11-value menu at every offset, every length-prefix inflation) over canonical encodings of all corpus value trees + all short byte strings over a wire alphabet; differential oracle on commonly accepted inputs; crash-attributing subprocess workers",
    text="For every corpus type x runtime: all truncations, all byte replacements at all offsets, all length-prefix inflations (with per-case allocation budget) of every seed encoding, and every byte string <= 3 (4) over a 16-symbol alphabet. No panic, no worker death under an address-space limit, allocation linear in the input, and whenever generated Unmarshal and the reference both accept, the decoded trees are equal.",
    note="Agreement is only required on commonly accepted inputs. Disagreements caused by triaged mechanisms (map-entry shape, unsupported extension shapes) are attributed by a structural classifier and listed as known findings."),
+
+ "C12": dict(level="model_checking", design="DESIGN.md §7 C12",
+   technique="explicit-state BFS over the real extension accessors (state = operation history replayed on a fresh message, dedup on model map + canonical bytes), every operation and every observation in every state, model + owning-runtime differential oracle",
+   text="For every extendable corpus message (13 scalar/enum/string/bytes/message extension kinds + enum/uint32/sfixed/repeated/file-scope variants, gogoproto and descriptor.proto options) on gogo, legacy v1, gv2, gv1: BFS over Set(e,v1|v2)/Clear(e)/ClearAll with 4 (thorough 6) extensions = all 3^n model states; in every state Has/Get/Range (also early-error callback)/ExtensionFieldNumber/Marshal-Unmarshal crossings and every accessor with descriptors of every other runtime class and non-descriptor values. Results must equal the model and the owning runtime's own API; cleared extensions absent from the bytes; mismatches give false/error with the message unchanged.",
+   note="ClearExtension's documented panic for a wrong descriptor type is tolerated (message must stay unchanged). gv1 vs gv2 are the same runtime class for csproto. Every transition runs on the real code."),
+ "C18": dict(level="exploration", design="DESIGN.md §7 C18",
+   technique="exhaustive product enumeration (runtimes x value trees x all marshal-option combinations x indent strings; JSON documents x unmarshal-option combinations) with structural option probes and differential decoding through the owning runtime's own JSON codec",
+   text="~9.4k values of 105 types (corpus p2/p3 on gogo/legacy/gv2/gv1, the six example packages, well-known types, gogoproto extension types) x 20 option combinations: json.Valid, decode through the adapter and through the owning runtime's decoder (tree-equal to the source), indent/enum/zero-value probes on the parsed JSON, delegation to json.Marshaler/Unmarshaler, nil / typed-nil / unsupported values; unmarshal side: unknown keys and removed required fields at top level and nested x AllowUnknownFields x AllowPartialMessages.",
+   note="Behaviours that the owning runtime shows identically when called directly (third-party limitations) are counted and excluded, listed in evidence. AllowPartial is documented v2-only."),
 }
 
 NOT_YET = {}
